@@ -28,10 +28,13 @@ Theorem c18_set_get : forall c, In c all_contexts -> forall n, In n (accepted c)
 Proof. intros c Hc. exact (set_get c (all_facts c Hc)). Qed.
 Print Assumptions c18_set_get.
 
-(* an alias and its canonical name denote the same location; ALL strings n *)
+(* an alias and its canonical name denote the same location and read the same value in every
+   register file; ALL strings n *)
 Theorem c18_aliases_same_location : forall c, In c all_contexts -> forall n m, memoize c n = Some m ->
-  exists l l', find_arm n (ct_get c) = Some l /\ find_arm m (ct_get c) = Some l' /\
-               loc_eqb l l' = true /\ memoize c m = Some m /\ In m (ct_registers c).
+  In n (accepted c) /\ In m (accepted c) /\
+  loc_eqb (loc_of c n) (loc_of c m) = true /\
+  (forall rf, get_always c rf n = Ret (rf_get rf (loc_of c n)) /\ get_always c rf m = Ret (rf_get rf (loc_of c n))) /\
+  memoize c m = Some m /\ In m (ct_registers c).
 Proof. intros c Hc. exact (aliases_same_location c (all_facts c Hc)). Qed.
 Print Assumptions c18_aliases_same_location.
 
@@ -87,6 +90,30 @@ Proof.
 Qed.
 Print Assumptions c18_case_sensitive.
 
+(* what the checker does with a by-name read that is not the plain location: X86 with
+   `"esp" => self.esp & !3` in get_register_always.  set_register("esp", 7) is accepted but the
+   read-back is 4; [diagnose] reports the table. *)
+Definition n_esp : name := [101; 115; 112].
+Definition l_x86_esp : loc := mkloc n_esp (-1) 32 (-1).
+Definition x86_masked_get : ctx_table :=
+  {| ct_name := ct_name ctx_x86; ct_variant := ct_variant ctx_x86; ct_width := ct_width ctx_x86;
+     ct_registers := ct_registers ctx_x86;
+     ct_get := ([n_esp], AAnd (ALoc l_x86_esp) (ANot (ALit 3) 32)) :: ct_get ctx_x86;
+     ct_set := ct_set ctx_x86; ct_set_val := ct_set_val ctx_x86;
+     ct_memo := ct_memo ctx_x86; ct_memo_cmp := ct_memo_cmp ctx_x86; ct_groups := ct_groups ctx_x86;
+     ct_sp_name := ct_sp_name ctx_x86; ct_ip_name := ct_ip_name ctx_x86;
+     ct_sp_acc := ct_sp_acc ctx_x86; ct_ip_acc := ct_ip_acc ctx_x86;
+     ct_md_get := ct_md_get ctx_x86; ct_md_valid := ct_md_valid ctx_x86; ct_md_filter := ct_md_filter ctx_x86;
+     ct_fields := ct_fields ctx_x86; ct_gpr := ct_gpr ctx_x86 |}.
+Theorem c18_masked_read_rejected :
+  let rf0 : regfile := fun _ _ => 0 in
+  set_reg x86_masked_get rf0 n_esp 7 = Ret (Some (upd rf0 l_x86_esp 7)) /\
+  get_always x86_masked_get (upd rf0 l_x86_esp 7) n_esp = Ret 4 /\
+  get_always ctx_x86 (upd rf0 l_x86_esp 7) n_esp = Ret 7 /\
+  diagnose x86_masked_get <> [].
+Proof. cbv zeta. repeat split; try (vm_compute; reflexivity). vm_compute. discriminate. Qed.
+Print Assumptions c18_masked_read_rejected.
+
 (* what the checker does with a case-insensitive default_memoize_register: "RIP" becomes known to
    memoize_register (as rip) while get_register_always does not know it, so the checked read
    reaches unreachable!(); [diagnose] reports the table *)
@@ -94,7 +121,7 @@ Definition n_RIP : name := [82; 73; 80].
 Definition n_rip : name := [114; 105; 112].
 Definition amd64_nocase : ctx_table :=
   {| ct_name := ct_name ctx_amd64; ct_variant := ct_variant ctx_amd64; ct_width := ct_width ctx_amd64;
-     ct_registers := ct_registers ctx_amd64; ct_get := ct_get ctx_amd64; ct_set := ct_set ctx_amd64;
+     ct_registers := ct_registers ctx_amd64; ct_get := ct_get ctx_amd64; ct_set := ct_set ctx_amd64; ct_set_val := ct_set_val ctx_amd64;
      ct_memo := ct_memo ctx_amd64; ct_memo_cmp := 1; ct_groups := ct_groups ctx_amd64;
      ct_sp_name := ct_sp_name ctx_amd64; ct_ip_name := ct_ip_name ctx_amd64;
      ct_sp_acc := ct_sp_acc ctx_amd64; ct_ip_acc := ct_ip_acc ctx_amd64;
@@ -161,7 +188,7 @@ Definition l_arm_pc : loc := mkloc [105; 114; 101; 103; 115] 15 32 16.
 Definition l_arm_cpsr : loc := mkloc [99; 112; 115; 114] (-1) 32 (-1).
 Definition arm_thumb_masked : ctx_table :=
   {| ct_name := ct_name ctx_arm; ct_variant := ct_variant ctx_arm; ct_width := ct_width ctx_arm;
-     ct_registers := ct_registers ctx_arm; ct_get := ct_get ctx_arm; ct_set := ct_set ctx_arm;
+     ct_registers := ct_registers ctx_arm; ct_get := ct_get ctx_arm; ct_set := ct_set ctx_arm; ct_set_val := ct_set_val ctx_arm;
      ct_memo := ct_memo ctx_arm; ct_memo_cmp := ct_memo_cmp ctx_arm; ct_groups := ct_groups ctx_arm;
      ct_sp_name := ct_sp_name ctx_arm; ct_ip_name := ct_ip_name ctx_arm;
      ct_sp_acc := ct_sp_acc ctx_arm;
@@ -288,7 +315,7 @@ Proof. repeat split; vm_compute; reflexivity. Qed.
    (the same location) is not honoured for o6. *)
 Definition sparc_before_fix : ctx_table :=
   {| ct_name := ct_name ctx_sparc; ct_variant := ct_variant ctx_sparc; ct_width := ct_width ctx_sparc;
-     ct_registers := ct_registers ctx_sparc; ct_get := ct_get ctx_sparc; ct_set := ct_set ctx_sparc;
+     ct_registers := ct_registers ctx_sparc; ct_get := ct_get ctx_sparc; ct_set := ct_set ctx_sparc; ct_set_val := ct_set_val ctx_sparc;
      ct_memo := []; ct_memo_cmp := 0; ct_groups := [];
      ct_sp_name := ct_sp_name ctx_sparc; ct_ip_name := ct_ip_name ctx_sparc;
      ct_sp_acc := ct_sp_acc ctx_sparc; ct_ip_acc := ct_ip_acc ctx_sparc; ct_fields := ct_fields ctx_sparc;
